@@ -225,7 +225,7 @@ ITEMS = [
          proofs=[
              ("before", "let mut emitted_any_dimension_metrics", "let ghost verif_sf1 = __s.state.string_fields_buf.all(); let ghost verif_decl1 = __s.state.decl_buf; proof { assert(ends_with(verif_sf1, nl())); }"),
              ("before", "entry . metrics_buf . push_raw_str ( \"]}\" ) ;", "let ghost verif_w_in = output.written();"),
-             ("before", "let mut first = true ;", "let ghost verif_w2 = output.written();"),
+             ("before", "if ! emitted_any_dimension_metrics ||", "let ghost verif_w2 = output.written();"),
              ("before", "__s . state . metrics_buf . push_raw_str ( \"]}\" ) ;", "let ghost verif_dim2 = __s.state.dimensions_buf;"),
              ("before", "Ok ( ( ) )", """proof {
                     reveal_with_fuel(concat, 6);
